@@ -105,12 +105,70 @@ impl LinesOnlyMappingsEncoder {
 """
 
 
+# Client lemmas: the loop `for m in ms { encoder.encode(&m) }; encoder.drain()` of helpers::encode_mappings / get_map,
+# written out against the CONTRACTS above (this is not repository code - the wrappers use `Box<dyn MappingsEncoder>` and
+# iterator `for_each`, which rule D1 drops).  They show that the per-call preconditions chain (wf => every call's
+# requires) and that iterating the contract gives exactly enc_all / lines_all, the functions the theorems of codec_thm
+# are stated over.
+CLIENT = r"""
+fn client_encode_all(ms: &Vec<Mapping>) -> (r: String)
+  requires wf(es0(), ms@)
+  ensures r@ =~= bytes_as_chars(enc_all(es0(), ms@)), all_wire(enc_all(es0(), ms@))
+{
+  let mut e = FullMappingsEncoder::new();
+  let mut i: usize = 0;
+  proof { assert(ms@.skip(0) =~= ms@); assert(Seq::<u8>::empty() + enc_all(es0(), ms@) =~= enc_all(es0(), ms@)); }
+  while i < ms.len()
+    invariant i <= ms.len(), es_in_dom(e.es()), all_wire(e.bytes()), wf(e.es(), ms@.skip(i as int)),
+      e.bytes() + enc_all(e.es(), ms@.skip(i as int)) == enc_all(es0(), ms@),
+    decreases ms.len() - i
+  {
+    let ghost rest = ms@.skip(i as int);
+    let ghost s = e.es();
+    let ghost b = e.bytes();
+    proof { assert(rest[0] == ms@[i as int]); assert(rest.skip(1) =~= ms@.skip(i as int + 1)); }
+    e.encode(&ms[i]);
+    proof { assert(b + (enc_bytes(s, rest[0]) + enc_all(enc_state(s, rest[0]), rest.skip(1))) =~= (b + enc_bytes(s, rest[0])) + enc_all(enc_state(s, rest[0]), rest.skip(1))); }
+    i += 1;
+  }
+  proof { assert(ms@.skip(ms@.len() as int) =~= Seq::<Mapping>::empty()); assert(e.bytes() + Seq::<u8>::empty() =~= e.bytes()); }
+  e.drain()
+}
+
+fn client_lines_all(ms: &Vec<Mapping>) -> (r: String)
+  requires wf_lines(ls0(), ms@)
+  ensures r@ =~= bytes_as_chars(lines_all(ls0(), ms@)), all_wire(lines_all(ls0(), ms@))
+{
+  let mut e = LinesOnlyMappingsEncoder::new();
+  let mut i: usize = 0;
+  proof { assert(ms@.skip(0) =~= ms@); assert(Seq::<u8>::empty() + lines_all(ls0(), ms@) =~= lines_all(ls0(), ms@)); }
+  while i < ms.len()
+    invariant i <= ms.len(), ls_inv(e.ls()), all_wire(e.bytes()), wf_lines(e.ls(), ms@.skip(i as int)),
+      e.bytes() + lines_all(e.ls(), ms@.skip(i as int)) == lines_all(ls0(), ms@),
+    decreases ms.len() - i
+  {
+    let ghost rest = ms@.skip(i as int);
+    let ghost s = e.ls();
+    let ghost b = e.bytes();
+    proof { assert(rest[0] == ms@[i as int]); assert(rest.skip(1) =~= ms@.skip(i as int + 1)); }
+    e.encode(&ms[i]);
+    proof { assert(b + (lines_bytes(s, rest[0]) + lines_all(lines_state(s, rest[0]), rest.skip(1))) =~= (b + lines_bytes(s, rest[0])) + lines_all(lines_state(s, rest[0]), rest.skip(1))); }
+    i += 1;
+  }
+  proof { assert(ms@.skip(ms@.len() as int) =~= Seq::<Mapping>::empty()); assert(e.bytes() + Seq::<u8>::empty() =~= e.bytes()); }
+  e.drain()
+}
+"""
+
+
 def build(u):
     u.item("src/source.rs", "pub struct Mapping {")
     u.item("src/source.rs", "pub struct OriginalLocation {")
     u.spec("codec_spec.rs")
     u.spec("lines_spec.rs")
     u.spec("codec_enc_lemmas.rs")
+    u.spec("codec_all_spec.rs")
+    u.spec("lines_all_spec.rs")
     b = u.item("src/encoder.rs", "const B64_CHARS: &[u8]")
     u.b64_literal = d4_b64_chars(b)
     u.raw(ENC_TABLE_GLUE, ("glue", NAME))
@@ -121,12 +179,12 @@ def build(u):
         ("encode_vlq.requires", "contract", "requires (a >= b ==> a - b < 0x8000_0000) && (a < b ==> b - a < 0x7fff_ffff)"),
         ("encode_vlq.len", "contract", "ensures final(out)@.len() > old(out)@.len(),"),
         ("encode_vlq.ensures", "contract", "  final(out)@ == old(out)@ + vlq_digits(zz(a as int, b as int)),", F),
-        ("encode_vlq.wire", "contract", "  all_wire(old(out)@) ==> all_wire(final(out)@),", W),
+        ("encode_vlq.wire", "contract", "  all_wire(old(out)@) ==> all_wire(final(out)@),", W + F),
     ])
     v.loop("encode_vlq", 1, [
         ("encode_vlq.loop1.inv", "contract", "invariant_except_break out@ + vlq_digits(num as nat) == old(out)@ + vlq_digits(zz(a as int, b as int))", F),
         ("encode_vlq.loop1.len", "contract", "invariant out@.len() >= old(out)@.len(),"),
-        ("encode_vlq.loop1.wire", "contract", "  all_wire(old(out)@) ==> all_wire(out@),", W),
+        ("encode_vlq.loop1.wire", "contract", "  all_wire(old(out)@) ==> all_wire(out@),", W + F),
         ("encode_vlq.loop1.exit0", "contract", "ensures out@.len() > old(out)@.len(),"),
         ("encode_vlq.loop1.exit", "contract", "  out@ == old(out)@ + vlq_digits(zz(a as int, b as int)),", F),
         ("encode_vlq.loop1.dec", "contract", "decreases num"),
@@ -167,12 +225,12 @@ def build(u):
          "ensures final(self).es() == enc_state(old(self).es(), *mapping),\n"
          "  final(self).bytes() =~= old(self).bytes() + enc_bytes(old(self).es(), *mapping),", F),
         ("FullMappingsEncoder::encode.dom", "contract", "ensures es_in_dom(final(self).es()), final(self).es().line == mapping.generated_line || final(self).es() == old(self).es(),"),
-        ("FullMappingsEncoder::encode.wire", "contract", "  all_wire(final(self).bytes()),", W),
+        ("FullMappingsEncoder::encode.wire", "contract", "  all_wire(final(self).bytes()),", W + F),
     ])
     f.loop("encode", 1, [
         ("FullMappingsEncoder::encode.loop1.frame", "contract", "invariant self.es() == old(self).es(),"),
         ("FullMappingsEncoder::encode.loop1.inv", "contract", "  self.bytes() == old(self).bytes() + semis(_i as nat),", F),
-        ("FullMappingsEncoder::encode.loop1.wire", "contract", "  all_wire(self.bytes()),", W),
+        ("FullMappingsEncoder::encode.loop1.wire", "contract", "  all_wire(self.bytes()),", W + F),
     ])
     f.loop_body_start("encode", 1, "FullMappingsEncoder::encode.hint.semis", "hint",
                       "proof { lemma_semis_push(old(self).bytes(), _i as nat); }", tags=F)
@@ -227,12 +285,12 @@ def build(u):
          "ensures final(self).ls() == lines_state(old(self).ls(), *mapping),\n"
          "  final(self).bytes() =~= old(self).bytes() + lines_bytes(old(self).ls(), *mapping),", F),
         ("LinesOnlyMappingsEncoder::encode.dom", "contract", "ensures ls_inv(final(self).ls()), final(self).ls().line == mapping.generated_line || final(self).ls() == old(self).ls(),"),
-        ("LinesOnlyMappingsEncoder::encode.wire", "contract", "  all_wire(final(self).bytes()),", W),
+        ("LinesOnlyMappingsEncoder::encode.wire", "contract", "  all_wire(final(self).bytes()),", W + F),
     ])
     g.loop("encode", 1, [
         ("LinesOnlyMappingsEncoder::encode.loop1.frame", "contract", "invariant self.ls() == (LS { lw: mapping.generated_line, ..old(self).ls() }),"),
         ("LinesOnlyMappingsEncoder::encode.loop1.inv", "contract", "  self.bytes() == old(self).bytes() + semis(_i as nat),", F),
-        ("LinesOnlyMappingsEncoder::encode.loop1.wire", "contract", "  all_wire(self.bytes()),", W),
+        ("LinesOnlyMappingsEncoder::encode.loop1.wire", "contract", "  all_wire(self.bytes()),", W + F),
     ])
     g.loop_body_start("encode", 1, "LinesOnlyMappingsEncoder::encode.hint.semis", "hint",
                       "proof { lemma_semis_push(old(self).bytes(), _i as nat); }", tags=F)
@@ -254,6 +312,7 @@ def build(u):
     g.loop_body_start("encode", 1, "canary.LinesOnlyMappingsEncoder::encode.loop1", "canary", "proof { assert(false); }")
     g.body_start("drain", "canary.LinesOnlyMappingsEncoder::drain", "canary", "proof { assert(false); }")
 
+    u.raw(CLIENT, ("glue", NAME + ":client"), tags=F)
     u.contracted += [
         ("encode_vlq", "src/encoder.rs"),
         ("FullMappingsEncoder::new", "src/encoder.rs"), ("FullMappingsEncoder::encode", "src/encoder.rs"), ("FullMappingsEncoder::drain", "src/encoder.rs"),
